@@ -410,7 +410,7 @@ func writeComputedFieldExpression(w *formatting.IndentedWriter, expression dsl.E
 			}
 			switch pattern := t.Cases[0].Pattern.(type) {
 			case *dsl.DeclarationPattern:
-				fmt.Fprintf(w, "[]([[maybe_unused]] %s const& %s) -> %s {\n", common.TypeSyntax(pattern.Type), common.FieldIdentifierName(pattern.Identifier), common.TypeSyntax(t.ResolvedType))
+				fmt.Fprintf(w, "[&]([[maybe_unused]] %s const& %s) -> %s {\n", common.TypeSyntax(pattern.Type), common.FieldIdentifierName(pattern.Identifier), common.TypeSyntax(t.ResolvedType))
 				w.Indented(func() {
 					w.WriteString("return ")
 					self.Visit(t.Cases[0].Expression)
@@ -420,7 +420,10 @@ func writeComputedFieldExpression(w *formatting.IndentedWriter, expression dsl.E
 				self.Visit(t.Target)
 				w.WriteString(")")
 			case *dsl.TypePattern, *dsl.DiscardPattern:
-				self.Visit(t.Target)
+				// the value of the switch is the value of its only case, not the value switched over
+				w.WriteString("(")
+				self.Visit(t.Cases[0].Expression)
+				w.WriteString(")")
 			default:
 				panic(fmt.Sprintf("Unexpected pattern type %T", t.Cases[0].Pattern))
 			}
